@@ -336,6 +336,8 @@ def check_export(rep, prog):
     rep.saw(fn=f)
     for s in Interp(prog, Scenario(inline=noinline)).run(f):
         its = s.ret.items if isinstance(s.ret, Bytes) else []
+        from rules import C14
+        its = C14.expand_generated(prog, f, s, its)       # an export loop over a generator of the program: the sequence it yields
         flat = []
 
         def walk(items):
